@@ -256,10 +256,21 @@ Inductive atom := ALit (s : str) | AVar (x : str).
 
 Inductive opaque_kind := OStripHtml | OUrlDecode | OBase64Decode.
 
+Inductive trans_kind := TT | TGettext | TNgettext | TPgettext | TNpgettext.
+
+(* the current code and the two seeded variants the model must tell apart *)
+Inductive trans_variant :=
+| TrCurrent
+| TrVarsOnlyIfAem      (* message variables escaped only when autoescape_message *)
+| TrPluralStrRaw.      (* ngettext: a plural that already is a str skips to_liquid_string *)
+
 Inductive filter :=
 | FEscape | FEscapeOnce | FUpcase | FDowncase | FCapitalize | FStrip | FLstrip | FRstrip
 | FAppend (a : atom) | FPrepend (a : atom) | FReplace (old new : atom) | FRemove (a : atom)
 | FSlice (start len : Z) | FSplit (sep : atom) | FJoin (sep : option atom) | FFirst | FLast | FDefault (d : atom) | FSize
+| FTrans (k : trans_kind) (aem : bool) (args : list atom) (kw : list (str * atom))
+    (* t / gettext / ngettext / pgettext / npgettext with their positional and keyword arguments; aem = the filter object's
+       autoescape_message (extra=True registers it as env.autoescape, a filter registered by hand has False) *)
 | FOpaque (k : opaque_kind) (result : str).    (* strip_html / url_decode / base64_decode: result = the text function applied
                                                   to the input text, measured by the harness; only the FLAG behaviour is modelled *)
 
@@ -276,6 +287,79 @@ Definition split_on (s sp : sstr) : value :=
          else VL (map (fun t => {| tx := t; sf := sf s |}) (py_split (tx s) (tx sp)))
   end.
 
+(* to_liquid_string(val, autoescape) *)
+Definition out_str (ae : bool) (s : sstr) : str := if ae then esc_arg s else tx s.
+Definition to_liquid_string (ae : bool) (v : value) : str :=
+  match v with
+  | VS s => out_str ae s
+  | VL l => concat (map (out_str ae) l)         (* Markup(empty).join(soft_str(item)) / plain join *)
+  | VNil | VNone => []
+  | VInt n => nat_to_str n
+  end.
+
+(* ---------------------------------------------------------------- translation filters (liquid/extra/filters/translate.py)
+   BaseTranslateFilter.format_message: re_vars = (?<!%)%\((\w+)\)s ; every match is replaced by the stringified variable.
+   [fmt_go prev resolve fuel s]: prev = the previous character is a percent sign. *)
+Definition is_word (c : N) : bool :=
+  is_digit c || ((65 <=? c) && (c <=? 90)) || ((97 <=? c) && (c <=? 122)) || (c =? 95).
+
+(* after the opening parenthesis: a non-empty run of word characters followed by )s *)
+Definition placeholder (s : str) : option (str * str) :=
+  let '(nm, rest) := span_upto is_word (length s) s in
+  match nm, rest with
+  | _ :: _, c1 :: c2 :: rest' => if (c1 =? 41) && (c2 =? 115) then Some (nm, rest') else None
+  | _, _ => None
+  end.
+
+Fixpoint fmt_go (resolve : str -> str) (fuel : nat) (prev : bool) (s : str) : str :=
+  match fuel with
+  | O => s
+  | S f =>
+      match s with
+      | [] => []
+      | c :: r =>
+          if (c =? 37) && negb prev then
+            match r with
+            | c1 :: r1 =>
+                if c1 =? 40 then
+                  match placeholder r1 with
+                  | Some (nm, rest) => resolve nm ++ fmt_go resolve f false rest
+                  | None => c :: fmt_go resolve f true r
+                  end
+                else c :: fmt_go resolve f true r
+            | [] => [c]
+            end
+          else c :: fmt_go resolve f (c =? 37) r
+      end
+  end.
+Definition format_message (resolve : str -> str) (s : str) : str := fmt_go resolve (S (length s)) false s.
+
+(* text -> count, as int() reads a data string; anything but ASCII digits is a ValueError *)
+Fixpoint digits_nat (s : str) (acc : nat) : option nat :=
+  match s with
+  | [] => Some acc
+  | c :: r => if is_digit c then digits_nat r (acc * 10 + N.to_nat (c - 48)) else None
+  end.
+Definition parse_count (s : str) : option nat := match s with [] => None | _ => digits_nat s 0 end.
+
+(* int_arg(count, default=1) of ngettext / npgettext; None: the filter raises (TypeError) *)
+Definition count_arg (v : value) : option nat :=
+  match v with
+  | VInt n => Some n
+  | VNil => Some O                       (* int(Undefined) = 0 *)
+  | VS s => Some (match parse_count (tx s) with Some n => n | None => 1%nat end)
+  | _ => None
+  end.
+
+(* _count(kwargs.get(count)) of the t filter; None: no count *)
+Definition t_count (v : option value) : option nat :=
+  match v with
+  | Some (VInt n) => Some n
+  | Some VNil => Some O
+  | Some (VS s) => parse_count (tx s)
+  | _ => None
+  end.
+
 Section Eval.
   Variable ae : bool.                          (* Environment(autoescape=...) *)
   Variable look : str -> value.                (* variable lookup; an unbound name is VNil *)
@@ -283,6 +367,55 @@ Section Eval.
   (* StringLiteral.evaluate: Markup when autoescape *)
   Definition eval_atom (a : atom) : value :=
     match a with ALit s => VS {| tx := s; sf := ae |} | AVar x => look x end.
+
+  (* the five translation filters with NullTranslations: gettext gives the message, ngettext the singular iff n = 1; the
+     message context only selects a catalogue entry.  left/plural are stringified with (autoescape and autoescape_message),
+     the %(name)s variables with autoescape alone (keyword arguments first, then the render context); the formatted text is a
+     Markup when autoescape. *)
+  Definition s_plural : str := [112; 108; 117; 114; 97; 108].
+  Definition s_count_kw : str := [99; 111; 117; 110; 116].
+
+  Definition tr_kwv (kw : list (str * atom)) : list (str * value) := map (fun b => (fst b, eval_atom (snd b))) kw.
+
+  (* a %(name)s variable: keyword arguments first, then the render context; stringified with env.autoescape *)
+  Definition tr_resolve (vr : trans_variant) (aem : bool) (kw : list (str * atom)) (name : str) : str :=
+    let x := match alookup name (tr_kwv kw) with Some x => x | None => look name end in
+    to_liquid_string (match vr with TrVarsOnlyIfAem => ae && aem | _ => ae end) x.
+
+  (* the left value and the plural: stringified with (autoescape and autoescape_message) *)
+  Definition tr_left (aem : bool) (v : value) : str := to_liquid_string (ae && aem) v.
+  Definition tr_plural (vr : trans_variant) (k : trans_kind) (aem : bool) (a : atom) : str :=
+    match vr, k, eval_atom a with
+    | TrPluralStrRaw, TNgettext, VS s => tx s
+    | _, _, pv => to_liquid_string (ae && aem) pv
+    end.
+
+  Definition tr_pick (vr : trans_variant) (k : trans_kind) (aem : bool) (v : value) (plural : atom) (n : nat) : str :=
+    if Nat.eqb n 1 then tr_left aem v else tr_plural vr k aem plural.
+
+  (* t: plural: and count: are keyword arguments; count stays available to the message *)
+  Definition tr_t_text (vr : trans_variant) (aem : bool) (kw : list (str * atom)) (v : value) : str :=
+    match alookup s_plural kw, t_count (alookup s_count_kw (tr_kwv kw)) with
+    | Some pl, Some n => match eval_atom pl with VNone => tr_left aem v | _ => tr_pick vr TT aem v pl n end
+    | _, _ => tr_left aem v
+    end.
+
+  Definition tr_text (vr : trans_variant) (k : trans_kind) (aem : bool) (args : list atom) (kw : list (str * atom)) (v : value) : option str :=
+    match k, args with
+    | TGettext, [] => Some (tr_left aem v)
+    | TPgettext, [_] => Some (tr_left aem v)
+    | TNgettext, [pl; cnt] => match count_arg (eval_atom cnt) with Some n => Some (tr_pick vr k aem v pl n) | None => None end
+    | TNpgettext, [_; pl; cnt] => match count_arg (eval_atom cnt) with Some n => Some (tr_pick vr k aem v pl n) | None => None end
+    | TT, [] => Some (tr_t_text vr aem kw v)
+    | TT, [_] => Some (tr_t_text vr aem kw v)
+    | _, _ => None
+    end.
+
+  Definition trans_apply (vr : trans_variant) (k : trans_kind) (aem : bool) (args : list atom) (kw : list (str * atom)) (v : value) : value :=
+    match tr_text vr k aem args kw v with
+    | Some t => VS {| tx := format_message (tr_resolve vr aem kw) t; sf := ae |}
+    | None => VNil                      (* wrong arguments: the filter raises; not part of the correspondence *)
+    end.
 
   Definition capitalize_s (s : str) : str := match s with [] => [] | c :: r => up c :: map low r end.
 
@@ -329,6 +462,7 @@ Section Eval.
         | _ => v
         end
     | FSize => VInt (match v with VS s => length (tx s) | VL l => length l | _ => O end)
+    | FTrans k aem args kw => trans_apply TrCurrent k aem args kw v
     | FOpaque k result =>
         let s := as_string v in
         if ae && sf s then
@@ -347,21 +481,17 @@ Section Eval.
     | EFilt e' f => apply_filter f (eval_expr e')
     end.
 
-  (* to_liquid_string(val, autoescape) *)
-  Definition out_str (s : sstr) : str := if ae then esc_arg s else tx s.
-  Definition to_liquid_string (v : value) : str :=
-    match v with
-    | VS s => out_str s
-    | VL l => concat (map out_str l)         (* Markup(empty).join(soft_str(item)) / plain join *)
-    | VNil | VNone => []
-    | VInt n => nat_to_str n
-    end.
 End Eval.
 
 (* ---------------------------------------------------------------- statements *)
 Inductive cond := CTruthy (a : atom) | CEq (a b : atom).
 
+(* a translate block's message: literal text and {{ name }} placeholders *)
+Inductive mseg := MText (s : str) | MVar (x : str).
+
 Inductive stmt :=
+| STranslate (binds : list (str * atom)) (singular : list mseg) (plural : option (list mseg))
+    (* translate tag: keyword arguments (count selects the plural block), the message, the plural message *)
 | SText (s : str)
 | SOut (e : expr)                                      (* output statement, echo *)
 | SAssign (x : str) (e : expr)
@@ -422,6 +552,16 @@ Fixpoint for_loop (run : state -> res (str * state)) (x : str) (items : list val
       let '(o2, st2) := r2 in Ok (o1 ++ o2, st2)
   end.
 
+(* resolve_count of the translate tag: to_int, ValueError and TypeError give 1 *)
+Definition tag_count (v : value) : nat :=
+  match v with
+  | VInt n => n
+  | VNil => O
+  | VS s => match parse_count (tx s) with Some n => n | None => 1%nat end
+  | _ => 1%nat
+  end.
+Definition s_count : str := [99; 111; 117; 110; 116].
+
 Section Exec.
   Variable ae : bool.
 
@@ -439,6 +579,14 @@ Section Exec.
         | s :: rest =>
             do r <- (match s with
                      | SText t => Ok (t, st)
+                     | STranslate binds sing plur =>
+                         (* Markup(message) % vars: the literal text as it is, each variable through to_liquid_string; the
+                            arguments are visible to the message, and count picks the block (NullTranslations: singular iff 1) *)
+                         let ns := bind_args st binds in
+                         let n := match alookup s_count ns with Some v => tag_count v | None => 1%nat end in
+                         let msg := match plur with Some p => if Nat.eqb n 1 then sing else p | None => sing end in
+                         let st1 := push_scope st ns in
+                         Ok (concat (map (fun g => match g with MText t => t | MVar x => to_liquid_string ae (lookup st1 x) end) msg), st)
                      | SOut e => Ok (to_liquid_string ae (eval st e), st)
                      | SAssign x e => Ok ([], set_local st x (eval st e))
                      | SCapture x body =>
@@ -477,17 +625,38 @@ End Exec.
 (* ---------------------------------------------------------------- conditions on the template text *)
 (* pt: what every literal text must satisfy; pf: which filters may be used *)
 Definition atom_ok (pt : str -> bool) (a : atom) : bool := match a with ALit s => pt s | AVar _ => true end.
+Definition is_lit (a : atom) : bool := match a with ALit _ => true | AVar _ => false end.
+
+(* the positional arguments that are message texts: the plural of ngettext and npgettext *)
+Definition msg_args_lit (k : trans_kind) (args : list atom) : bool :=
+  match k, args with
+  | TNgettext, pl :: _ => is_lit pl
+  | TNpgettext, _ :: pl :: _ => is_lit pl
+  | _, _ => true
+  end.
 
 Definition filter_ok (pt : str -> bool) (pf : filter -> bool) (f : filter) : bool :=
   pf f &&
   match f with
   | FAppend a | FPrepend a | FRemove a | FSplit a | FDefault a | FJoin (Some a) => atom_ok pt a
   | FReplace o n => atom_ok pt o && atom_ok pt n
+  | FTrans k aem args kw =>
+      forallb (atom_ok pt) args && forallb (fun b => atom_ok pt (snd b)) kw
+      (* registered by hand (autoescape_message = False) the message texts are trusted: they must be template literals;
+         the first positional argument of ngettext, the second of npgettext and the plural keyword of t are message texts *)
+      && (aem || msg_args_lit k args && forallb (fun b => is_lit (snd b) || negb (str_eqb (fst b) [112; 108; 117; 114; 97; 108])) kw)
+  | _ => true
+  end.
+
+(* ... and so must the value the filter is applied to *)
+Definition input_ok (e : expr) (f : filter) : bool :=
+  match f with
+  | FTrans _ false _ _ => match e with EAtom (ALit _) => true | _ => false end
   | _ => true
   end.
 
 Fixpoint expr_ok (pt : str -> bool) (pf : filter -> bool) (e : expr) : bool :=
-  match e with EAtom a => atom_ok pt a | EFilt e' f => expr_ok pt pf e' && filter_ok pt pf f end.
+  match e with EAtom a => atom_ok pt a | EFilt e' f => expr_ok pt pf e' && filter_ok pt pf f && input_ok e' f end.
 
 Definition cond_ok (pt : str -> bool) (c : cond) : bool :=
   match c with CTruthy a => atom_ok pt a | CEq a b => atom_ok pt a && atom_ok pt b end.
@@ -495,6 +664,9 @@ Definition cond_ok (pt : str -> bool) (c : cond) : bool :=
 Fixpoint stmt_ok (pt : str -> bool) (pf : filter -> bool) (s : stmt) : bool :=
   match s with
   | SText t => pt t
+  | STranslate binds sing plur =>
+      let seg_ok g := match g with MText t => pt t | MVar _ => true end in
+      forallb (fun b => atom_ok pt (snd b)) binds && forallb seg_ok sing && match plur with Some p => forallb seg_ok p | None => true end
   | SOut e => expr_ok pt pf e
   | SAssign _ e => expr_ok pt pf e
   | SCapture _ body => forallb (stmt_ok pt pf) body
